@@ -113,7 +113,7 @@ package gmtls
 //@ (func "(*halfConn).decrypt" noframe split-returns
 //@   (requires blk (and (not (isnil b)) (bvsge (len (field b data)) 5) (bvsle (len (field b data)) #x0000000000100000)))
 //@   (requires sep (distinct (obj hc) (obj b) (obj (field b data)) (obj (field hc inDigestBuf))))
-//@   (ghost-havoc ctc.last aead.fails pad.ssl pad.full pad.good)
+//@   (ghost-havoc ctc.last ctc.eqs aead.fails pad.ssl pad.full pad.good)
 //@   (ensures accepted (=> ok (= (seq64 hc) (bvadd (old (seq64 hc)) #x0000000000000001))))
 //@   (ensures macchecked (=> (and ok (not (isnil (old (field hc mac))))) (= (ghost ctc.last) 1)))
 //@   (ensures aeadchecked (=> ok (= (ghost aead.fails) (old (ghost aead.fails)))))
@@ -162,7 +162,7 @@ package gmtls
 // (it decrypts in place: the caller's buffer is overwritten, which is why the callers pass a copy).
 //@ (func "(*Conn).decryptTicket" autoloops
 //@   (requires args (not (isnil (field c config))))
-//@   (ghost-havoc ctc.last)
+//@   (ghost-havoc ctc.last ctc.eqs)
 //@   (modifies (elems encrypted))
 //@   (ensures accepted (=> result.1 (and (not (isnil result.0)) (= (ghost ctc.last) 1)
 //@                                       (not (field (field c config) SessionTicketsDisabled))))))
@@ -185,13 +185,13 @@ package gmtls
 //@   (requires args (and (not (isnil (field hs c))) (not (isnil (cfgOf hs))) (not (isnil (field hs clientHello)))))
 //@   (requires sep (distinct (obj hs) (obj (field hs c)) (obj (cfgOf hs)) (obj (field hs clientHello))))
 //@   (requires tables (suitesOK))
-//@   (ghost-havoc ctc.last)
+//@   (ghost-havoc ctc.last ctc.eqs)
 //@   (ensures policy (=> result (resumeOK hs))))
 //@ (func "(*serverHandshakeState).checkForResumption" autoloops noframe
 //@   (requires args (and (not (isnil (field hs c))) (not (isnil (cfgOf hs))) (not (isnil (field hs clientHello)))))
 //@   (requires sep (distinct (obj hs) (obj (field hs c)) (obj (cfgOf hs)) (obj (field hs clientHello))))
 //@   (requires tables (suitesOK))
-//@   (ghost-havoc ctc.last)
+//@   (ghost-havoc ctc.last ctc.eqs)
 //@   (ensures policy (=> result (resumeOK hs))))
 // helpers of the resumption check: they read the configuration and write only what is named
 //@ (func "(*Config).cipherSuites" trusted
